@@ -8,8 +8,11 @@ query, head bookkeeping of the scratch store is not modelled.  Core-only.
 import DefraModel.Crdt.Model
 namespace Defra.Crdt
 
+/-- enough fuel for the worklist walk: one step per queued identifier, and a block queues its parents once -/
+def seekFuel (bs : Blocks) : Nat := (bs.map (fun b => b.parents.length + 1)).sum + 2
+
 /-- `seekNext`: queue of composites (and collection blocks) reachable through heads, each once -/
-def seekQueue (bs : Blocks) (c : Nat) : List Nat := closureAux bs (4 * bs.length + 8) [c] []
+def seekQueue (bs : Blocks) (c : Nat) : List Nat := closureAux bs (seekFuel bs) [c] []
 
 /-- `merge`: apply the block and its links, each block once (`merged` is the visited set) -/
 def vmerge (bs : Blocks) : Nat → (Vals × List Nat) → Nat → (Vals × List Nat)
